@@ -26,18 +26,24 @@
 (*   Crash of the guard or a cleaner at any step: its descriptors are       *)
 (*   closed, i.e. its locks vanish.                                         *)
 (***************************************************************************)
-EXTENDS Naturals, Sequences, FiniteSets, TLC
+EXTENDS Naturals, Sequences, FiniteSets, TLC, Json
 
 CONSTANTS
     GuardCreate, GuardDrop,      \* sequences of [op, f, perm]
     CleanerAcquire, CleanerDrop, \* sequences of [op, f, perm]
     NodeMap,                     \* [ProcessState verdict -> node level verdict]
     Monitors, Cleaners,          \* sets of process names (strings)
-    Level,                       \* [Monitors -> {"pm", "node"}]
+    Levels,                      \* [Monitors -> SUBSET {"pm", "cal", "node"}]: the levels at which a monitor may ask
+                                 \* (chosen per query): ProcessMonitor::state(); the same through the mapping of
+                                 \* monitoring/file_lock.rs; Node::list (listing step + mapping)
     Privileged,                  \* observers may open a read-only file for writing (root)
     MaxQueries,                  \* state() calls per monitor
-    GuardMayDrop, GuardMayCrash, CleanerMayCrash,
-    Excused                      \* signatures of known findings (do not fail the invariants)
+    GuardMayDrop,
+    GuardCrashPhases,            \* subset of {"startup", "running", "shutdown"} in which the guard may crash
+    CleanerMayCrash,
+    CleanersAfterCrash,          \* cleaners start only once the guard is dead (smaller instances)
+    Excused,                     \* signatures of known findings (do not fail the invariants)
+    ExcuseAll                    \* TRUE: collect every signature (WITNESS lines) in one run, fail nothing
 
 Files == {"context", "state", "owner_lock"}
 Procs == Monitors \cup Cleaners
@@ -54,11 +60,13 @@ VARIABLES
 fsvars == <<exists, perm, content, lock>>
 gvars == <<gpc, gcrashed, gcrashphase>>
 vars == <<exists, perm, content, lock, gpc, gcrashed, gcrashphase, ps, bad, hist>>
-view == <<exists, perm, content, lock, gpc, gcrashed, gcrashphase, ps, bad>>
+\* `last` (the verdict shown last, read by the trace specification) and `hist` are not part of the VIEW
+view == <<exists, perm, content, lock, gpc, gcrashed, gcrashphase,
+          [p \in Procs |-> [ps[p] EXCEPT !.last = "none", !.lv = IF ps[p].pc = "idle" THEN "pm" ELSE @]], bad>>
 
 NoPend == [v |-> "none", ph |-> "none", f |-> "none"]
-PInit == [pc |-> "idle", pend |-> NoPend, q |-> 0,
-          qdead |-> FALSE, snap |-> <<>>, idx |-> 0, nopen |-> 0, cres |-> "none", err |-> "none"]
+PInit == [pc |-> "idle", lv |-> "pm", pend |-> NoPend, q |-> 0, last |-> "none",
+          qdead |-> FALSE, qalone |-> FALSE, snap |-> <<>>, idx |-> 0, nopen |-> 0, cres |-> "none", err |-> "none"]
 
 Init ==
     /\ exists = [f \in Files |-> FALSE]
@@ -128,7 +136,7 @@ GDropStep ==
     /\ hist' = Append(hist, <<"G", GNextOp.op, GNextOp.f>>)
 
 GCrash ==
-    /\ GuardMayCrash /\ ~gcrashed /\ gpc > 0 /\ gpc < LC + LD
+    /\ GPhase \in GuardCrashPhases /\ ~gcrashed /\ gpc > 0 /\ gpc < LC + LD
     /\ gcrashed' = TRUE
     /\ gcrashphase' = GPhase
     /\ ReleaseLocks("G")
@@ -140,19 +148,22 @@ GCrash ==
 
 LockedByOther(f, p) == lock[f] # "none" /\ lock[f] # p
 
-First(p) == IF p \in Monitors /\ Level[p] = "node" THEN "n_scan" ELSE "open_ctx_w"
+First(lv) == IF lv = "node" THEN "n_scan" ELSE "open_ctx_w"
+LevelsOf(p) == IF ps[p].pc # "idle" THEN {ps[p].lv} ELSE IF p \in Monitors THEN Levels[p] ELSE {"pm"}
 
 \* the label at which p stands (an idle process that may start stands at its first label)
-CanStart(p) == ps[p].pc = "idle" /\ (IF p \in Monitors THEN ps[p].q < MaxQueries ELSE ps[p].cres = "none" /\ ps[p].err = "none")
-Label(p) == IF CanStart(p) THEN First(p) ELSE ps[p].pc
+CanStart(p) == /\ ps[p].pc = "idle"
+               /\ IF p \in Monitors THEN ps[p].q < MaxQueries
+                  ELSE ps[p].cres = "none" /\ ps[p].err = "none" /\ (CleanersAfterCrash => gcrashed)
+Label(p, lv) == IF CanStart(p) THEN First(lv) ELSE ps[p].pc
 
 StateLabels == {"n_scan", "n_stat", "open_ctx_w", "fstat_ctx", "close_ctx_w", "open_ctx_r", "read_ctx",
                 "close_ctx_r", "open_owner", "access_state", "getlk_owner", "close_owner", "open_state",
                 "getlk_state", "close_ret"}
 
 \* the system call p performs next inside state(): <<call, file>>
-MCall(p) ==
-    LET c == Label(p) IN
+MCall(p, lv) ==
+    LET c == Label(p, lv) IN
     CASE c = "n_scan" -> <<"scandir", "dir">>
       [] c = "n_stat" -> <<"stat", "state">>
       [] c = "open_ctx_w" -> <<"openw", "context">>
@@ -171,8 +182,8 @@ MCall(p) ==
       [] OTHER -> <<"none", "none">>
 
 \* what that call observes
-MObs(p) ==
-    LET c == Label(p) IN
+MObs(p, lv) ==
+    LET c == Label(p, lv) IN
     CASE c \in {"n_scan", "n_stat", "open_state", "access_state"} -> IF exists["state"] THEN "ok" ELSE "enoent"
       [] c = "open_ctx_w" -> IF ~exists["context"] THEN "enoent"
                              ELSE IF Privileged \/ perm["context"] = "init" THEN "ok" ELSE "eacces"
@@ -215,29 +226,39 @@ Harmless == {"idle", "failed", "x_state", "x_acq", "x_owner"}
 Snapshot(p) == [c \in Cleaners \ {p} |-> ps[c].pc]
 
 \* signatures ---------------------------------------------------------------
-SigFalseDead(level, ph, v) == <<"falsedead", level, ph, v>>
+\* Violations are recorded in `bad`; excused (known) ones are only printed, with the schedule that
+\* produced them, so that every run re-derives its witnesses.
+Record(b) ==
+    /\ bad' = bad \cup (IF ExcuseAll THEN {} ELSE b \ Excused)
+    /\ \A s \in b : PrintT(<<"WITNESS", ToJson(<<s, hist>>)>>)
+
+SigFalseDead(level, ph, v) == <<"falsedead", level, ph>>
 SigUndetected(level, ph, v) == <<"undetected", level, ph, v>>
 SigUnrecoverable(r, left) == <<"unrecoverable", r, left>>
 SigReclaim(ph) == <<"reclaim", ph>>
 SigExclusive(what) == <<"exclusive", what>>
 SigLoser(r) == <<"loser", r>>
 
-FilesLeft == <<IF exists["context"] THEN 1 ELSE 0, IF exists["state"] THEN 1 ELSE 0, IF exists["owner_lock"] THEN 1 ELSE 0>>
+\* which files are still linked, as one string: c(ontext) s(tate) o(wner_lock)
+FilesLeft ==
+    LET c == exists["context"] s == exists["state"] o == exists["owner_lock"] IN
+    CASE c /\ s /\ o -> "cso" [] c /\ s /\ ~o -> "cs-" [] c /\ ~s /\ o -> "c-o" [] c /\ ~s /\ ~o -> "c--"
+      [] ~c /\ s /\ o -> "-so" [] ~c /\ s /\ ~o -> "-s-" [] ~c /\ ~s /\ o -> "--o" [] OTHER -> "---"
 
 \* a monitor publishes verdict v (ProcessMonitor level), decided in guard phase ph; base = its record
 MonPublish(p, base, v, ph) ==
     LET nv == IF v = "Absent" THEN "DoesNotExist" ELSE NodeMap[v]
-        lv == Level[p]
-        shown == IF lv = "node" THEN nv ELSE v
+        lv == base.lv
+        shown == IF lv = "pm" THEN v ELSE nv
         quiet == base.qdead /\ base.snap = Snapshot(p)
         b1 == IF shown = "Dead" /\ ~gcrashed THEN {SigFalseDead(lv, ph, v)} ELSE {}
         b2 == IF quiet /\ (shown = "Alive"
-                           \/ (lv = "node" /\ shown \notin {"Dead", "DoesNotExist"})
+                           \/ (lv # "pm" /\ shown \notin {"Dead", "DoesNotExist"})
                            \/ (gcrashphase = "running" /\ shown # "Dead"))
               THEN {SigUndetected(lv, gcrashphase, v)} ELSE {}
-    IN /\ ps' = [ps EXCEPT ![p] = [base EXCEPT !.pc = "idle", !.pend = NoPend, !.q = @ + 1,
-                                               !.qdead = FALSE, !.snap = <<>>]]
-       /\ bad' = bad \cup b1 \cup b2
+    IN /\ ps' = [ps EXCEPT ![p] = [base EXCEPT !.pc = "idle", !.pend = NoPend, !.q = @ + 1, !.last = shown,
+                                               !.qdead = FALSE, !.qalone = FALSE, !.snap = <<>>]]
+       /\ Record(b1 \cup b2)
 
 ErrOfState(v) ==
     CASE v = "Alive" -> "StillAlive"
@@ -248,18 +269,18 @@ ErrOfState(v) ==
 
 \* a cleaner finishes its attempt with result r (r = "Ok": it now owns the files); base = its record
 CleanerResult(p, base, r, newpc) ==
-    LET alone == gcrashed /\ gcrashphase = "running" /\ base.qdead /\ base.snap = Snapshot(p)
-                 /\ \A c \in Cleaners \ {p} : ps[c].pc \in CleanerTerminal \cup {"idle"}
+    LET alone == gcrashed /\ gcrashphase = "running" /\ base.qalone /\ base.snap = Snapshot(p)
         nofile == \A f \in Files : ~exists[f]
-        others == {c \in Cleaners \ {p} : ps[c].pc \in {"owner", "drop"}}
+        \* another cleaner owns the files right now, or has finished its cleanup (did not crash while owning)
+        others == {c \in Cleaners \ {p} : ps[c].pc \in {"owner", "drop", "done"}}
         b1 == IF r = "Ok" /\ ~gcrashed THEN {SigReclaim(GPhase)} ELSE {}
-        b2 == IF r = "Ok" /\ others # {} THEN {SigExclusive("two_owners")} ELSE {}
+        b2 == IF r = "Ok" /\ others # {} THEN {SigExclusive("second_owner")} ELSE {}
         b3 == IF alone /\ ~(r = "Ok" \/ (r = "DoesNotExist" /\ nofile)) THEN {SigUnrecoverable(r, FilesLeft)} ELSE {}
         b4 == IF base.qdead /\ gcrashphase = "running"
                  /\ r \notin {"Ok", "OwnedByAnother", "BeingCleanedUp", "DoesNotExist"} THEN {SigLoser(r)} ELSE {}
     IN /\ ps' = [ps EXCEPT ![p] = [base EXCEPT !.pc = newpc, !.pend = NoPend, !.cres = r, !.err = "none",
-                                               !.qdead = FALSE, !.snap = <<>>, !.nopen = 0]]
-       /\ bad' = bad \cup b1 \cup b2 \cup b3 \cup b4
+                                               !.qdead = FALSE, !.qalone = FALSE, !.snap = <<>>, !.nopen = 0]]
+       /\ Record(b1 \cup b2 \cup b3 \cup b4)
 
 \* the verdict of state() is available to p
 Conclude(p, base, v, ph) ==
@@ -270,20 +291,21 @@ Conclude(p, base, v, ph) ==
          ELSE CleanerResult(p, base, ErrOfState(v), "failed")
 
 \* bookkeeping when p starts a query / an attempt: was the guard already dead and no cleaner active?
-Started(p, rec) ==
+Started(p, lv, rec) ==
     IF ps[p].pc = "idle"
-    THEN [rec EXCEPT !.qdead = gcrashed /\ \A c \in Cleaners \ {p} : ps[c].pc \in Harmless,
+    THEN [rec EXCEPT !.lv = lv, !.qdead = gcrashed /\ \A c \in Cleaners \ {p} : ps[c].pc \in Harmless,
+                     !.qalone = gcrashed /\ \A c \in Cleaners \ {p} : ps[c].pc \in CleanerTerminal \cup {"idle"},
                      !.snap = Snapshot(p)]
     ELSE rec
 
 \* one system call of state()
-StateStep(p) ==
-    /\ Label(p) \in StateLabels
-    /\ LET c == Label(p)
-           o == MObs(p)
+StateStepL(p, lv) ==
+    /\ Label(p, lv) \in StateLabels
+    /\ LET c == Label(p, lv)
+           o == MObs(p, lv)
            t == IF c = "close_ret" THEN Ret(ps[p].pend.v) ELSE Tree(c, o)
            ph == IF c = "close_ret" THEN ps[p].pend.ph ELSE GPhase
-           base == Started(p, ps[p])
+           base == Started(p, lv, ps[p])
        IN CASE t.t = "goto" -> /\ ps' = [ps EXCEPT ![p] = [base EXCEPT !.pc = t.l]]
                                /\ bad' = bad
             [] t.t = "pend" -> /\ ps' = [ps EXCEPT ![p] = [base EXCEPT !.pc = "close_ret",
@@ -291,7 +313,9 @@ StateStep(p) ==
                                /\ bad' = bad
             [] t.t = "ret" -> Conclude(p, base, t.v, ph)
     /\ UNCHANGED <<fsvars, gvars>>
-    /\ hist' = Append(hist, <<p, MCall(p)[1], MCall(p)[2]>>)
+    /\ hist' = Append(hist, <<p, MCall(p, lv)[1], MCall(p, lv)[2]>>)
+
+StateStep(p) == \E lv \in LevelsOf(p) : StateStepL(p, lv)
 
 MonStep(p) == p \in Monitors /\ StateStep(p)
 CStateStep(p) == p \in Cleaners /\ StateStep(p)
@@ -382,21 +406,22 @@ Spec == Init /\ [][Next]_vars
 Kind(k) == {s \in bad : s[1] = k}
 
 \* a verdict Dead (ProcessMonitor level and Node::list level) is never produced while the guard's process runs
-NoFalseDead == Kind("falsedead") \subseteq Excused
+NoFalseDead == Kind("falsedead") = {}
 \* a cleaner never obtains ownership while the guard's process runs
-NoReclaimFromLive == /\ Kind("reclaim") \subseteq Excused
-                     /\ (Kind("reclaim") = {} => \A c \in Cleaners : ps[c].pc \in {"owner", "drop"} => gcrashed)
+NoReclaimFromLive == Kind("reclaim") = {}
 \* once the process is dead and no cleaner lives, every later complete state() is Dead (DoesNotExist/absent
 \* where it died during start-up or shutdown), never Alive
-DeadIsDetected == Kind("undetected") \subseteq Excused
+DeadIsDetected == Kind("undetected") = {}
 \* of several concurrent cleaners at most one owns the files; the others get a documented error
-ExclusiveCleanup == /\ Cardinality({c \in Cleaners : ps[c].pc \in {"owner", "drop"}}) <= 1
-                    /\ Kind("exclusive") \subseteq Excused
-                    /\ Kind("loser") \subseteq Excused
-                    /\ Cardinality({c \in Cleaners : ps[c].cres = "Ok"})
-                         <= 1 + Cardinality({c \in Cleaners : ps[c].pc \in {"x_owner", "x_drop"}})
+\* (a second success is legitimate only as the recovery after the first owner crashed)
+ExclusiveCleanup == /\ Kind("exclusive") = {}
+                    /\ Kind("loser") = {}
+                    /\ (SigExclusive("second_owner") \notin Excused /\ ~ExcuseAll =>
+                          /\ Cardinality({c \in Cleaners : ps[c].pc \in {"owner", "drop"}}) <= 1
+                          /\ Cardinality({c \in Cleaners : ps[c].cres = "Ok"})
+                                <= 1 + Cardinality({c \in Cleaners : ps[c].pc \in {"x_owner", "x_drop"}}))
 \* after a cleaner crashed, a later cleaner running alone succeeds (or finds nothing left)
-CleanerCrashRecoverable == Kind("unrecoverable") \subseteq Excused
+CleanerCrashRecoverable == Kind("unrecoverable") = {}
 
 TypeOK ==
     /\ exists \in [Files -> BOOLEAN]
@@ -405,5 +430,5 @@ TypeOK ==
     /\ gpc \in 0..(LC + LD)
 
 \* generation aid (DESIGN.md 3.10): print every distinct state's position with the schedule that reached it
-Reach == PrintT(<<"REACH", gpc, gcrashed, [p \in Procs |-> ps[p].pc], hist>>)
+Reach == PrintT(<<"REACH", ToJson(<<gpc, gcrashed, [p \in Procs |-> ps[p].pc], hist>>)>>)
 =============================================================================
